@@ -676,10 +676,26 @@ impl Vm {
     /// `lambda` - The lambda to emit bytecode to
     /// `expr` - The expression to quote.
     pub fn compile_quote(&mut self, lambda: &mut Lambda, expr: &Cell) -> Result<(), Error> {
+        // Code handed to eval is built at run time and may contain values that
+        // are not data (procedures, continuations, macros, the unspecified value)
+        if let Some(cell) = Self::find_non_datum(expr) {
+            return Err(InvalidSyntax(format!("{:#} is not a datum", cell)));
+        }
         lambda.emit(OpCode::MovImmediate);
         lambda.emit(self.heap.maybe_put_cell(expr));
         lambda.emit(VCell::Acc);
         Ok(())
+    }
+
+    fn find_non_datum(expr: &Cell) -> Option<&Cell> {
+        match expr {
+            Cell::Pair(car, cdr) => {
+                Self::find_non_datum(car).or_else(|| Self::find_non_datum(cdr))
+            }
+            Cell::Vector(vector) => vector.iter().find_map(Self::find_non_datum),
+            Cell::Continuation | Cell::Macro | Cell::Procedure(_) | Cell::Undefined => Some(expr),
+            _ => None,
+        }
     }
 
     /// Compile Quasiquote
